@@ -360,11 +360,25 @@ func (x *lpEx) src(n ast.Node) string {
 // The families are recognised by the protobuf getters / fields of the request (V4Support, V6Support).
 func (x *lpEx) label(cond ast.Expr) (string, int) {
 	s := x.src(cond)
+	// a condition on a local flag: look at the expression the flag was defined by
+	full := s
+	ast.Inspect(cond, func(m ast.Node) bool {
+		if id, ok := m.(*ast.Ident); ok && id.Obj != nil && id.Obj.Kind == ast.Var {
+			if as, ok := id.Obj.Decl.(*ast.AssignStmt); ok {
+				full += " " + x.src(as)
+			}
+		}
+		return true
+	})
 	switch {
-	case strings.Contains(s, "V4Support"):
+	case strings.Contains(full, "V4Support") && strings.Contains(full, "V6Support"):
+		// both: not a per-family block
+	case strings.Contains(full, "V4Support"):
 		return "v4", 4
-	case strings.Contains(s, "V6Support"):
+	case strings.Contains(full, "V6Support"):
 		return "v6", 6
+	}
+	switch {
 	case strings.ReplaceAll(s, " ", "") == "err!=nil":
 		return "err", 0
 	}
